@@ -21,8 +21,6 @@ mode 'kink' inputs sit exactly on the kink and only (b) and (c) are required the
 from __future__ import annotations
 
 import functools
-import itertools
-import math
 
 from hypothesis import strategies as st
 import numpy as np
@@ -151,7 +149,7 @@ def _same_structure(a, b):
 class Engine:
   """primal / jvp / vjp of `f` (pytree -> pytree) with state, tangent and cotangent as inputs."""
 
-  def __init__(self, f, jit=True, kink=None, linear=False, n_kinks=None):
+  def __init__(self, f, jit=True, kink=None, linear=False):
     jax = _jax()
     wrap = jax.jit if jit else (lambda g: g)
     self.F = wrap(f)
@@ -347,8 +345,32 @@ def run_entry(case, build):
   return out
 
 
+def run_family(case, key, build):
+  """Runs `run_entry` for every entry point listed in cfg[key + 's'] with otherwise identical configuration/inputs."""
+  cfg = dict(case['cfg'])
+  names = cfg.pop(key + 's')
+  total = Outcome(labels=[], units=0, nontrivial=True)
+  labs = []
+  for name in names:
+    out = run_entry({'cfg': dict(cfg, **{key: name}), 'inputs': case['inputs']}, build)
+    total.units += out.units
+    labs += [l for l in out.labels if l not in labs]
+    total.nontrivial = total.nontrivial and out.nontrivial
+    if not out.ok:
+      total.labels = labs
+      return total.fail(**dict(out.detail, **{key: name}))
+  total.labels = labs
+  return total
+
+
 # ----------------------------------------------------------------------------
 # input descriptions
+
+
+def _pick(options):
+  """Near-uniform choice (a 16-bit integer modulo the number of options); shrinks towards the first option."""
+  options = list(options)
+  return st.integers(0, 2 ** 16 - 1).map(lambda i: options[i % len(options)])
 
 
 @st.composite
@@ -444,18 +466,17 @@ _TRANSFORM_OPS = ('to_nodal', 'to_modal', 'product', 'uv', 'vordiv', 'modal_ops'
 
 @st.composite
 def _transform_case(draw, tier):
-  op = draw(st.sampled_from(_TRANSFORM_OPS))
-  poles_ok = op in ('to_nodal', 'to_modal', 'product')
+  poles_ok = draw(st.sampled_from([False, False, True]))
   g = draw(gens.grid_configs(kind=draw(st.sampled_from(['scalar', 'vector'])) if poles_ok else 'vector',
                              max_m=6 if tier == 'quick' else 12, min_m=1,
                              spacings=gens.SPACINGS if poles_ok else ('gauss', 'equiangular'), max_slack=3))
   if g['radius'] is not None and not (0.1 <= g['radius'] <= 100):
     g['radius'] = 2.5
-  cfg = {'grid': g, 'op': op, 'levels': draw(st.integers(1, 3))}
+  cfg = {'grid': g, 'ops': list(_TRANSFORM_OPS[:3] if poles_ok else _TRANSFORM_OPS), 'levels': draw(st.integers(1, 3))}
   return {'cfg': cfg, 'inputs': draw(_triples(tier, ('a', 'b'), cfg['levels'], g['M'], g['L']))}
 
 
-@functools.lru_cache(maxsize=4)
+@functools.lru_cache(maxsize=16)
 def _transform_ctx(cfg_s):
   import json
   from dinosaur import spherical_harmonic as sh
@@ -502,26 +523,28 @@ def _transform_ctx(cfg_s):
 
 
 def run_transforms(case):
-  return run_entry(case, _transform_ctx)
+  return run_family(case, 'op', _transform_ctx)
 
 
 # ----------------------------------------------------------------------------
 # B. filters
 
 
+_FILTER_KINDS = ('exponential', 'exponential_array', 'diffusion', 'diffusion_array', 'exp_step', 'diffusion_step',
+                 'exp_leapfrog_step', 'robert_asselin')
+
+
 @st.composite
 def _filter_case(draw, tier):
   g = draw(_dyn_grid(tier, min_m=2))   # L = 1 has no wavenumber to normalise by (filters are C15's subject)
-  kind = draw(st.sampled_from(['exponential', 'exponential_array', 'diffusion', 'diffusion_array', 'exp_step',
-                               'diffusion_step', 'exp_leapfrog_step', 'robert_asselin']))
   n = draw(st.integers(1, 3))
-  cfg = {'grid': g, 'kind': kind, 'levels': n, 'order': draw(st.integers(1, 6)),
+  cfg = {'grid': g, 'kinds': list(_FILTER_KINDS), 'levels': n, 'order': draw(st.integers(1, 6)),
          'cutoff': draw(st.sampled_from([0.0, 0.0, 0.3, 0.6])), 'strength': draw(st.sampled_from([16.0, 2.0, 0.3])),
          'r': draw(st.sampled_from([0.05, 0.2])), 'dt': draw(st.sampled_from([0.01, 0.1]))}
   return {'cfg': cfg, 'inputs': draw(_triples(tier, _PE_FIELDS, n, g['M'], g['L']))}
 
 
-@functools.lru_cache(maxsize=4)
+@functools.lru_cache(maxsize=16)
 def _filter_ctx(cfg_s):
   import json
   from dinosaur import filtering, time_integration as ti
@@ -573,7 +596,7 @@ def _filter_ctx(cfg_s):
 
 
 def run_filters(case):
-  return run_entry(case, _filter_ctx)
+  return run_family(case, 'kind', _filter_ctx)
 
 
 # ----------------------------------------------------------------------------
@@ -642,8 +665,8 @@ def _lnps00(specs):
 def _pe_terms_case(draw, tier, kinds, terms, kinky=False, min_levels=1):
   g = draw(_dyn_grid(tier))
   b = draw(_levels(tier, min_levels))
-  kind = draw(st.sampled_from(list(kinds)))
-  term = draw(st.sampled_from(list(terms)))
+  kind = draw(_pick(kinds))
+  term = draw(_pick(terms))
   cfg = {'grid': g, 'boundaries': b, 'kind': kind, 'term': term, 'pseed': draw(st.integers(0, 999))}
   if term == 'implicit_inverse':
     cfg['eta'] = draw(st.sampled_from([0.01, 0.1, -0.05, 1.0]))
@@ -923,7 +946,7 @@ def _pattern(draw):
 @st.composite
 def _step_case(draw, tier, integrator):
   leap = integrator == 'semi_implicit_leapfrog'
-  eq = draw(st.sampled_from(['dry', 'moist', 'sw', 'dry_hs', 'cloud', 'dry_time', 'reversed', 'sw']))
+  eq = draw(_pick(['dry', 'moist', 'sw', 'dry_hs', 'cloud', 'dry_time', 'reversed', 'sw']))
   g = draw(_dyn_grid(tier))
   cfg = {'grid': g, 'integrator': integrator, 'eq': eq, 'dt': draw(st.sampled_from([0.01, 0.05, 0.2])),
          'pseed': draw(st.integers(0, 999)), 'pattern': draw(_pattern())}
@@ -1106,7 +1129,7 @@ _INTERP_FNS = ('interp', '_dot_interp', 'linear_interp_with_linear_extrap', 'saf
 
 @st.composite
 def _interp_case(draw, tier):
-  cfg = {'fn': draw(st.sampled_from(_INTERP_FNS)), 'n': draw(st.integers(2, 8)), 'q': draw(st.integers(1, 6)),
+  cfg = {'fns': list(_INTERP_FNS), 'n': draw(st.integers(2, 8)), 'q': draw(st.integers(1, 6)),
          'cols': draw(st.integers(1, 3))}
   lo, hi = (3, 8) if tier == 'quick' else (8, 30)
   inputs = draw(st.lists(st.fixed_dictionaries({
@@ -1124,7 +1147,7 @@ def _interp_range(fn, xp):
   return None
 
 
-@functools.lru_cache(maxsize=8)
+@functools.lru_cache(maxsize=16)
 def _interp_ctx(cfg_s):
   import json
   import jax
@@ -1203,7 +1226,7 @@ def _interp_ctx(cfg_s):
 
 
 def run_interp(case):
-  return run_entry(case, _interp_ctx)
+  return run_family(case, 'fn', _interp_ctx)
 
 
 # ----------------------------------------------------------------------------
@@ -1216,7 +1239,7 @@ _FIELD_OPS = ('pressure_to_sigma', 'sigma_to_pressure', 'pressure_to_sigma_const
 
 @st.composite
 def _interp_fields_case(draw, tier):
-  cfg = {'op': draw(st.sampled_from(_FIELD_OPS)), 'n_src': draw(st.integers(2, 6)), 'boundaries': draw(gens.sigma_boundaries(2, 5)),
+  cfg = {'ops': list(_FIELD_OPS), 'n_src': draw(st.integers(2, 6)), 'boundaries': draw(gens.sigma_boundaries(2, 5)),
          'nx': draw(st.integers(1, 4)), 'ny': draw(st.integers(1, 3)), 'pseed': draw(st.integers(0, 999)),
          'tie_level': draw(st.booleans())}
   lo, hi = (2, 5) if tier == 'quick' else (5, 16)
@@ -1226,7 +1249,7 @@ def _interp_fields_case(draw, tier):
   return {'cfg': cfg, 'inputs': inputs}
 
 
-@functools.lru_cache(maxsize=4)
+@functools.lru_cache(maxsize=16)
 def _interp_fields_ctx(cfg_s):
   import json
   from dinosaur import vertical_interpolation as vi
@@ -1345,7 +1368,7 @@ def _CONST_EXTRAP():   # pylint: disable=invalid-name
 
 
 def run_interp_fields(case):
-  return run_entry(case, _interp_fields_ctx)
+  return run_family(case, 'op', _interp_fields_ctx)
 
 
 # ----------------------------------------------------------------------------
@@ -1638,7 +1661,20 @@ def run_dfi(case):
 # registry
 
 
-_WALL = {'quick': 600.0, 'thorough': 2400.0}   # safety net only: compile-bound work on a shared machine
+
+
+def _load_factor():
+  """>= 1: how oversubscribed the machine is (other checks run at the same time on the shared 16-core box)."""
+  import os
+  try:
+    return float(min(12.0, max(1.0, os.getloadavg()[0] / (os.cpu_count() or 1))))
+  except OSError:
+    return 1.0
+
+
+# wall budgets are a safety net only (they truncate the number of cases, never decide pass/fail); the work is
+# compile-bound, so the net is widened in proportion to the machine load at start-up
+_WALL = {'quick': 240.0 * _load_factor(), 'thorough': 1500.0 * _load_factor()}
 _NT = 'non-trivial = some triple has tangent and cotangent non-zero in >= 2 fields (all, if fewer) and <Jv,w> != 0'
 
 
@@ -1652,10 +1688,10 @@ def _step_sub(integrator, short):
 
 
 SUBCHECKS = [
-    Subcheck('transforms', run_transforms, strategy=_transform_case, examples={'quick': 10, 'thorough': 50},
+    Subcheck('transforms', run_transforms, strategy=_transform_case, examples={'quick': 3, 'thorough': 16},
              shards={'quick': 1, 'thorough': 2}, wall=_WALL, rule=_NT, weight=3,
              doc='to_nodal, to_modal, pseudo-spectral product, vor/div <-> u,v, spectral operators'),
-    Subcheck('filters', run_filters, strategy=_filter_case, examples={'quick': 12, 'thorough': 60},
+    Subcheck('filters', run_filters, strategy=_filter_case, examples={'quick': 3, 'thorough': 16},
              shards={'quick': 1, 'thorough': 2}, wall=_WALL, rule=_NT, weight=3,
              doc='exponential / diffusion filters (state and array strength), step filters, Robert-Asselin'),
     Subcheck('pe_explicit', run_pe_terms,
@@ -1689,10 +1725,10 @@ SUBCHECKS = [
     _step_sub('semi_implicit_leapfrog', 'leapfrog'),
     Subcheck('semi_lagrangian', run_semilag, strategy=_semilag_case, examples={'quick': 4, 'thorough': 20},
              shards={'quick': 1, 'thorough': 4}, wall=_WALL, rule=_NT, weight=5),
-    Subcheck('interp_1d', run_interp, strategy=_interp_case, examples={'quick': 24, 'thorough': 120},
+    Subcheck('interp_1d', run_interp, strategy=_interp_case, examples={'quick': 4, 'thorough': 24},
              shards={'quick': 1, 'thorough': 2}, wall=_WALL, rule=_NT, weight=3,
              doc='interp, _dot_interp, linear/safe extrapolation, vectorised wrappers: between, outside and on the nodes'),
-    Subcheck('interp_fields', run_interp_fields, strategy=_interp_fields_case, examples={'quick': 12, 'thorough': 60},
+    Subcheck('interp_fields', run_interp_fields, strategy=_interp_fields_case, examples={'quick': 3, 'thorough': 16},
              shards={'quick': 1, 'thorough': 2}, wall=_WALL, rule=_NT, weight=4),
     Subcheck('scan_synthetic', run_scan_synthetic, strategy=_scan_syn_case, examples={'quick': 5, 'thorough': 20},
              shards={'quick': 1, 'thorough': 4}, wall=_WALL, weight=6,
